@@ -7,7 +7,7 @@ from engine.runner import RunnerCrash, sanitizer_signature
 ID = "C10"
 LEVEL = "exploration"
 ENGINE = "E-hyp"
-TECHNIQUE = "fuzzing with semantic oracle: prefixes/token mutations of valid inputs, grammar-generated hostile inputs and random bytes through six front-end entry points; oracle = terminates, no sanitizer report/exception, result-or-error-diagnostic, run-twice determinism; libFuzzer target in the thorough tier"
+TECHNIQUE = "fuzzing with semantic oracle: prefixes/token mutations of valid inputs, grammar-generated hostile inputs and random bytes through six front-end entry points; oracle = terminates, no sanitizer report/exception, result-or-error-diagnostic, run-twice determinism; every prefix of the smallest seed files in the thorough tier; coverage-guided libFuzzer target (runner/fuzz_frontend.cpp, oracle inside the target, 20 s quick / 8 min thorough) whose artifacts are replayed through the same check"
 RULE = ("cases = (entry point, input) with entry in {preprocessor, SQF parser, config parser, compile, preprocess__, configparse__}; inputs are prefixes of the "
         "repository's test scripts/configs/preprocessor goldens, single-token mutations of them (delete/duplicate/swap/replace by a delimiter or directive), "
         "hostile templates (unterminated string/comment/macro call/directive at end of input, self- and mutually-recursive macros, include cycles, nesting depth "
@@ -233,13 +233,65 @@ FUZZ_DICT = ["#define ", "#include ", "#ifdef ", "#ifndef ", "#else", "#endif", 
              "class ", "delete ", "[] = {", "};", "private ", "params ", "call ", "then ", "else ", "exitWith ", "forEach ", "0x", "$", "1e9", "\\\n"]
 
 
+def _prefix_cases(limit_files=30, max_len=2500):
+    """every prefix of the smallest seed files, through the front end the file is written for (+ the preprocessor)"""
+    seeds = sorted(_seeds(), key=lambda s_: len(s_[1]))
+    out = []
+    for name, data in [s_ for s_ in seeds if 20 <= len(s_[1]) <= max_len][:limit_files]:
+        entries = ["preprocess"] + (["config"] if name.endswith((".cpp", ".hpp")) else ["sqf"])
+        for e in entries:
+            for i in range(len(data) + 1):
+                out.append(dict(entry=e, input=data[:i], kind="every_prefix"))
+    return out
+
+
+def _prefix_shard(shard):
+    from engine.driver import Env
+    env = Env(ID, "thorough", 0, 300 + (os.getpid() % 1000))
+    out = dict(evaluations=0, nontrivial=[], violations=[])
+    try:
+        for case in shard:
+            try:
+                res = check(case, env)
+            except RunnerCrash as rc:
+                res = Result(nontrivial=True, labels=["crash"], violation=viol("crash|%s|%s" % (case["entry"], sanitizer_signature(rc.detail)), rc.detail[-800:]))
+            out["evaluations"] += 1
+            if res.nontrivial:
+                out["nontrivial"].append(hashlib.sha1(json.dumps(case, sort_keys=True).encode()).hexdigest())
+            if res.violation is not None and len(out["violations"]) < 30:
+                out["violations"].append(dict(case=case, sig=res.violation["sig"], msg=res.violation["msg"], labels=res.labels))
+    finally:
+        env.close()
+    return out
+
+
+def _every_prefix(sizes):
+    import multiprocessing
+    todo = _prefix_cases()
+    nproc = sizes.get("workers", 16)
+    with multiprocessing.get_context("fork").Pool(nproc) as pool:
+        results = pool.map(_prefix_shard, [todo[i::nproc] for i in range(nproc)])
+    out = dict(evaluations=0, nontrivial=[], violations=[])
+    seen = set()
+    for res in results:
+        out["evaluations"] += res["evaluations"]
+        out["nontrivial"] += res["nontrivial"]
+        for v in res["violations"]:
+            if v["sig"] not in seen:
+                seen.add(v["sig"])
+                out["violations"].append(v)
+    return out
+
+
 def extra(env, tier, seed, sizes):
-    """coverage-guided part (E-fuzz): libFuzzer on the preprocessor / SQF parser / config parser with the oracle inside the target
-    (runner/fuzz_frontend.cpp); every artifact is replayed through the runner as an ordinary case of this check"""
+    """(1) thorough tier: every prefix of the smallest seed files; (2) coverage-guided part (E-fuzz): libFuzzer on the preprocessor /
+    SQF parser / config parser with the oracle inside the target (runner/fuzz_frontend.cpp); every artifact is replayed through the
+    runner as an ordinary case of this check"""
     from engine import fuzz
+    pre = _every_prefix(sizes) if tier == "thorough" else dict(evaluations=0, nontrivial=[], violations=[])
     secs = sizes.get("fuzz_s", 0)
     if not secs:
-        return None
+        return dict(pre, labels={"every_prefix": pre["evaluations"]}, samples=[], info=dict(every_prefix=pre["evaluations"]))
     seeds = []
     for _name, data in _seeds():
         raw = data.encode("latin-1")[:2000]
@@ -266,4 +318,9 @@ def extra(env, tier, seed, sizes):
             out["violations"].append(dict(case=case, sig=r.violation["sig"], msg=r.violation["msg"], labels=r.labels))
         else:
             out["labels"]["artifact_not_reproduced_in_runner"] = out["labels"].get("artifact_not_reproduced_in_runner", 0) + 1
+    out["evaluations"] += pre["evaluations"]
+    out["nontrivial"] += pre["nontrivial"]
+    out["violations"] += pre["violations"]
+    out["labels"]["every_prefix"] = pre["evaluations"]
+    out["info"]["every_prefix"] = pre["evaluations"]
     return out
